@@ -517,6 +517,9 @@ func NewUniverse() *Universe {
 	u := &Universe{datatypes: map[Sort]*Datatype{}, funcs: map[string]*FuncDecl{}, axioms: map[string][]*Term{}, usorts: map[Sort]bool{}}
 	u.usorts[SStr] = true
 	u.usorts[SIface] = true
+	u.Declare("u_mul_Real", SReal, SReal, SReal)
+	u.Declare("u_div_Real", SReal, SReal, SReal)
+	u.Declare("u_mul_Int", SInt, SInt, SInt)
 	u.Declare("sidx", SInt, SInt, SInt)
 	{
 		o, i := Var("so", SInt), Var("sx", SInt)
@@ -557,8 +560,64 @@ func sortLeaves(s Sort, f func(Sort)) {
 	f(s)
 }
 
+// abstractNonlinear replaces products and quotients of two non-literal terms by uninterpreted applications.
+// A proof under this abstraction is a proof for real multiplication (the abstraction only forgets facts).
+func abstractNonlinear(t *Term) *Term {
+	switch t.Kind {
+	case kLit, kVar:
+		return t
+	case kQuant:
+		nt := &Term{Op: t.Op, Sort: t.Sort, Kind: kQuant, Bound: t.Bound}
+		nt.Args = []*Term{abstractNonlinear(t.Args[0])}
+		for _, p := range t.Pats {
+			var np []*Term
+			for _, pt := range p {
+				np = append(np, abstractNonlinear(pt))
+			}
+			nt.Pats = append(nt.Pats, np)
+		}
+		return nt
+	}
+	if len(t.Args) == 0 {
+		return t
+	}
+	na := make([]*Term, len(t.Args))
+	changed := false
+	for i, a := range t.Args {
+		na[i] = abstractNonlinear(a)
+		if na[i] != a {
+			changed = true
+		}
+	}
+	if (t.Op == "*" || t.Op == "/") && len(na) == 2 && na[0].Kind != kLit && na[1].Kind != kLit {
+		name := map[string]string{"*": "u_mul", "/": "u_div"}[t.Op] + "_" + string(t.Sort)
+		a, b := na[0], na[1]
+		if t.Op == "*" && a.String() > b.String() {
+			a, b = b, a
+		}
+		return &Term{Op: name, Sort: t.Sort, Kind: kApp, Args: []*Term{a, b}}
+	}
+	if !changed {
+		return t
+	}
+	return &Term{Op: t.Op, Sort: t.Sort, Kind: t.Kind, Args: na}
+}
+
+// ScriptAbstract: like Script, with nonlinear arithmetic abstracted.
+func (u *Universe) ScriptAbstract(assumptions []*Term, goal *Term) string {
+	as := make([]*Term, len(assumptions))
+	for i, a := range assumptions {
+		as[i] = abstractNonlinear(a)
+	}
+	return u.script(as, abstractNonlinear(goal), false, true)
+}
+
 // Script renders a complete SMT-LIB script checking that assumptions => goal (by refutation).
 func (u *Universe) Script(assumptions []*Term, goal *Term, wantModel bool) string {
+	return u.script(assumptions, goal, wantModel, false)
+}
+
+func (u *Universe) script(assumptions []*Term, goal *Term, wantModel bool, abstract bool) string {
 	usedSyms := map[string]bool{}
 	usedSorts := map[Sort]bool{}
 	var scanTerm func(t *Term)
@@ -616,6 +675,9 @@ func (u *Universe) Script(assumptions []*Term, goal *Term, wantModel bool) strin
 			}
 			doneAx[s] = true
 			for _, ax := range u.axioms[s] {
+				if abstract {
+					ax = abstractNonlinear(ax)
+				}
 				axioms = append(axioms, ax)
 				scanTerm(ax)
 				changed = true
